@@ -95,8 +95,8 @@ Definition st_norm (tl hd : N) (ex : list N) : store :=
 
 (** Store.Append of the single chain header of height h (h >= 1) *)
 Definition st_append (st : store) (h : N) : store :=
-  if st_has st h then st
-  else if st_empty st then st_norm h h (s_extra st)
+  if st_empty st then st_norm h h (s_extra st)   (* ensureInit: Head = Tail = h, also when h is a detached header on disk *)
+  else if st_has st h then st
   else st_norm (s_tail st) (s_head st) (insert_sorted h (s_extra st)).
 
 (** the headers (x .. s_tail] are fetched and appended while x is already in the
@@ -190,14 +190,16 @@ Definition find_estimate (window block : Z) (oldH : N) (oldT : Z) (headH : N) (h
     | Some q => Some (Some (wrap64 (oldH + clamp_count (u64 q) oldH headH)))
     end.
 
-(** findTailHeight: estimate, walk down, walk up *)
+(** findTailHeight: estimate, cap at store head + 1, walk down, walk up *)
 Definition find_tail (window block : Z) (oldH : N) (oldT : Z) (headH : N) (headT : Z)
            (storeH : N) (time_at : N -> option Z) : tres :=
   match find_estimate window block oldH oldT headH headT with
   | None => TPanic
   | Some None => TVal oldH
-  | Some (Some e) =>
+  | Some (Some e0) =>
     let E := (headT + wrapi64 (- window))%Z in
+    (* only what is stored can be examined and pruned: start at most right above the store's head *)
+    let e := if wrap64 (storeH + 1) <? e0 then wrap64 (storeH + 1) else e0 in
     match scan_down (S (N.to_nat (e - oldH))) E oldH storeH time_at e with
     | TVal c => scan (S (N.to_nat (storeH - c))) E oldH storeH time_at c
     | r => r
@@ -231,7 +233,7 @@ Inductive why :=
 | WScan            (* a store lookup of the upward scan failed *)
 | WZero            (* tail height 0: Store.GetByHeight(0) *)
 | WFetch           (* the network has no header for the tail height / hash *)
-| WDelete.         (* Store.DeleteRange refused to move the tail up *)
+| WDelete.         (* Store.DeleteRange refused to move the tail up (unreachable from a well-formed store) *)
 
 (** moveTail(from = old tail, to = x) once the header x is in the store *)
 Definition move_tail (st : store) (old : option N) (x : N) : outcome * store * why :=
@@ -239,6 +241,14 @@ Definition move_tail (st : store) (old : option N) (x : N) : outcome * store * w
   | None => (OOk, st, WDone)
   | Some t =>
     if t <? x then
+      if wrap64 (s_head st + 1) <? x then
+        (* restartFromTail: the new tail (already appended as a detached header) lies above
+           everything stored: the whole chain is deleted and the store starts over from it *)
+        match st_delete_range st t (wrap64 (s_head st + 1)) with
+        | Some st' => (OOk, st_append st' x, WDone)
+        | None => (OErr, st, WDelete)
+        end
+      else
       match st_delete_range st t x with
       | Some st' => (OOk, st', WDone)
       | None => (OErr, st, WDelete)
